@@ -37,6 +37,9 @@ VAR = {
     "nopdo": lambda c: dict(c, rpdo=[], tpdo=[], objs=[o for o in c["objs"] if o[0] != 0x1804]),
     "rpdo_sync_behind_async": lambda c: dict(c, rpdo=[c["rpdo"][0], c["rpdo"][3], c["rpdo"][1]]),
     "noemcytbl": lambda c: dict(c, emcy=[]),
+    # a hole in the sub-index lists of 1010h / 1011h (highest sub-index 3, sub-index 2 missing)
+    "para_gap": lambda c: dict(c, objs=[o for o in c["objs"] if o[0] not in (0x1010, 0x1011)] +
+                                       [[0x1010, 0, 130, 17, 3], [0x1010, 1, 3, 17, 0], [0x1010, 3, 3, 17, 0], [0x1011, 0, 130, 18, 3], [0x1011, 1, 3, 18, 0], [0x1011, 3, 3, 18, 0]]),
 }
 
 def preamble(cfg):
@@ -84,7 +87,7 @@ def run(ctx):
         "one quarter of the walks is replayed a second time with one event pumped 300 times",
         "in-struct overruns that stay inside CO_NODE are invisible to the sanitizers: those are owned by the behavioural checks (C12 for 18xxh:5)",
     ]
-    dicts = ["full", "no1003", "rpdo_sync_behind_async", "nopara"] if q else list(VAR)
+    dicts = ["full", "no1003", "rpdo_sync_behind_async", "nopara", "para_gap"] if q else list(VAR)
     nwalk = 260 if q else 4000
     total = []
     classes = set()
